@@ -125,11 +125,19 @@ CLAIMS.update({
     ),
 })
 
+CLAIMS.update({
+    "C13": dict(
+        technique="dimensional (unit) analysis of the solver bodies by structural abstract interpretation: UtM, UtU, the l1 and ridge coefficients as units; every sum / difference / element store type-checked, every return compared with the unit of the exact solution",
+        text="PARTIAL claim; decides unit consistency only. (UNIT-CONSISTENT) in hals_nnls (cold and warm start, with and without l1 / ridge coefficients), fista (cold / warm, penalised), active_set_nnls (cold / warm) and admm (unconstrained branch and constrained iteration) no sum, difference or element store combines quantities of different units, and every returned solution has the unit UtM / UtU of the exact (penalised) least-squares solution. The solution of the NNLS problem is homogeneous of degree +1 in UtM and -1 in UtU; an update that mixes units is not invariant under rescaling the design, so its fixed point cannot be the KKT point for every input. Catches a Gram entry missing from the coordinate update, squared denominators, coefficients added on the wrong side, a step without / with a non-inverted Lipschitz constant, residuals without the Gram matrix. NOT decided: KKT optimality of the numbers, convergence, active-set bookkeeping.",
+        note="Trusted: clamp at epsilon evaluated as identity; proximal_operator unit-preserving; solve / svd degree specification.",
+        design="DESIGN.md §19 (C13)",
+    ),
+})
+
 NA = {
     "C05": "Singular values, orthonormality and optimal truncation error are numerical facts about LAPACK results; no sound static argument bounds them.",
     "C09": "Error bounds in terms of the data's singular spectrum are purely numerical.",
     "C12": "Exact minimisers of prox problems are purely numerical (the sign-level defect of the non-negativity handler is decided under C10/C11).",
-    "C13": "KKT optimality of solver output is purely numerical.",
     "C20": "Optimal assignment over all R! matchings and metric values are purely numerical.",
 }
 
